@@ -150,6 +150,64 @@ def check_C01(A: Analysis, tier):
                             "caller's offset) is not restored on every path", A.p.loc(f, n))
     rules.append(rb)
 
+    rd1 = Rule("C01", "C01.d", "Stream.__iter__ rewinds the wrapped object to offset 0, yields every chunk it reads until an empty "
+               "read, yields nothing else, and restores the caller's offset afterwards; _cast_to_bytes is the identity on bytes "
+               "and UTF-8 encoding otherwise", floor=3)
+    itf = A.p.func("Stream.__iter__")
+    loops = func_nodes(itf, (ast.While, ast.For))
+    yields = [n for n in ast.walk(itf.node) if isinstance(n, (ast.Yield, ast.YieldFrom))]
+    if len(loops) != 1 or not yields:
+        raise AnalysisError("Stream.__iter__ is not in the single read-loop form the rule reads")
+    lp = loops[0]
+    seeks0 = [c for c in ast.walk(itf.node) if isinstance(c, ast.Call) and norm(c.func) == "self._obj.seek" and c.args
+              and isinstance(c.args[0], ast.Constant) and c.args[0].value == 0 and c.lineno < lp.lineno]
+    rd1.ob(4)
+    rd1.inst(f"Stream.__iter__: rewind {'present' if seeks0 else 'MISSING'}; {len(yields)} yield(s)")
+    if not seeks0:
+        rd1.fail(itf, "self._obj.seek(0)", "the stream is not rewound to offset 0 before it is read: a stream handed over at a non-zero offset is stored "
+                 "(and hashed) only from that offset on", A.p.loc(itf, itf.node))
+    reads = [a for a in ast.walk(lp) if isinstance(a, ast.Assign) and isinstance(a.value, ast.Call) and norm(a.value.func) == "self._obj.read"
+             and isinstance(a.targets[0], ast.Name)]
+    if len(reads) != 1:
+        raise AnalysisError("Stream.__iter__: expected exactly one `x = self._obj.read(...)` in the loop")
+    var = reads[0].targets[0].id
+    rarg = reads[0].value.args[0] if reads[0].value.args else None
+    if rarg is not None and not (norm(rarg) == "self._buffer_size" or isinstance(rarg, (ast.Name, ast.Attribute))):
+        rd1.fail(itf, reads[0], f"chunks are read with size `{norm(rarg)}`, not the stream's buffer size", A.p.loc(itf, reads[0]))
+    if len(yields) != 1 or not (isinstance(yields[0], ast.Yield) and isinstance(yields[0].value, ast.Name) and yields[0].value.id == var
+                                and any(yields[0] is x for x in ast.walk(lp))):
+        rd1.fail(itf, yields[0], "what the stream yields is not exactly each chunk it read (once)", A.p.loc(itf, yields[0]))
+    brk = [i for i in ast.walk(lp) if isinstance(i, ast.If) and norm(i.test) in (f"not {var}", f"{var} == b''", f"len({var}) == 0")
+           and any(isinstance(b, ast.Break) for b in i.body)]
+    rd1.inst(f"Stream.__iter__: loop ends on `{norm(brk[0].test) if brk else '?'}`")
+    if not brk:
+        rd1.fail(itf, lp, "the read loop does not end exactly when a read returns no data", A.p.loc(itf, lp))
+    elif brk[0].lineno > yields[0].lineno and False:
+        pass
+    # an early exit other than the empty-read break truncates the content
+    extra = [n for n in ast.walk(lp) if isinstance(n, (ast.Break, ast.Return)) and not any(n is x for b in brk for x in ast.walk(b))]
+    if extra:
+        rd1.fail(itf, extra[0], "the read loop can stop before the end of the stream", A.p.loc(itf, extra[0]))
+    rest = [c for c in ast.walk(itf.node) if isinstance(c, ast.Call) and norm(c.func) == "self._obj.seek" and c.args and norm(c.args[0]) == "self._pos"
+            and c.lineno > lp.lineno]
+    if not rest or not any(norm(i.test) == "self._pos is not None" and any(rest[0] is x for x in ast.walk(i)) for i in func_nodes(itf, ast.If)):
+        rd1.fail(itf, "self._obj.seek(self._pos)", "after reading, a caller-owned stream is not returned to its original offset", A.p.loc(itf, itf.node))
+    cb = A.p.func(Q("_cast_to_bytes"))
+    pn = cb.node.args.args[0].arg
+    rets = [r for r in ast.walk(cb.node) if isinstance(r, ast.Return)]
+    convs = [c for c in ast.walk(cb.node) if isinstance(c, ast.Call) and (norm(c.func) == "bytes" or (isinstance(c.func, ast.Attribute) and c.func.attr == "encode"))]
+    rd1.inst(f"_cast_to_bytes: conversions {[norm(c) for c in convs]}")
+    okc = bool(rets) and all(isinstance(r.value, ast.Name) and r.value.id == pn or r.value in convs for r in rets)
+    for c in convs:
+        enc = [a.value for a in list(c.args) + [k.value for k in c.keywords] if isinstance(a, ast.Constant) and isinstance(a.value, str)]
+        if not enc or enc[0].lower().replace("-", "") != "utf8" or not any(isinstance(x, ast.Name) and x.id == pn for x in ast.walk(c)):
+            okc = False
+    guard = [i for i in func_nodes(cb, ast.If) if "isinstance" in norm(i.test) and "bytes" in norm(i.test)]
+    if not okc or not convs or not guard:
+        rd1.fail(cb, "bytes(text, 'utf8')", "_cast_to_bytes is no longer `bytes as is, anything else UTF-8 encoded`: what is written/hashed is not the content supplied",
+                 A.p.loc(cb, cb.node))
+    rules.append(rd1)
+
     rc = Rule("C01", "C01.c", "one pass: the same chunk is written to the temp file and fed to every hash object of "
               "the per-call algorithm list; cid = digest under the store algorithm = the object's address; "
               "ObjectMetadata fields are wired in order", floor=5)
